@@ -93,7 +93,7 @@ MsgStep ==
     \/ On("RefundDeposit") /\ \E o \in Signers, s \in SvcNames, p \in Provs :
           /\ RefundDeposit(o, s, p)
           /\ ev' = [name |-> "RefundDeposit", ok |-> TRUE, signer |-> o, svc |-> s, prov |-> p]
-    \/ On("SetWithdrawAddr") /\ \E o \in Signers, w \in Accts :
+    \/ On("SetWithdrawAddr") /\ \E o \in Signers, w \in Signers \cup Consumers :
           /\ o # w
           /\ SetWithdrawAddr(o, w)
           /\ ev' = [name |-> "SetWithdrawAddr", ok |-> TRUE, signer |-> o, addr |-> w]
